@@ -160,7 +160,7 @@ func (a *aliasProg) prelude() {
 	a.show()
 }
 
-const c09Creates = 31
+const c09Creates = 34
 const c09Updates = 14
 
 // create adds an alias-creating step of the given kind; returns false if not applicable.
@@ -322,6 +322,41 @@ func (a *aliasProg) create(kind int) bool {
 		name := a.fresh("f")
 		a.declare(name, tArrAN, gen.Binary{Op: "*", L: vr("nn", tArrAN), R: nl(2), T: tArrAN})
 		a.stmts = append(a.stmts, gen.Assign{Target: gen.Index{X: gen.Index{X: vr(name, tArrAN), I: nl(0), T: tArrN}, I: nl(0), T: tNum}, Val: nl(99)})
+	case 31: // the loop variable over an array of composites is stored and reassigned inside the body
+		tArrM := gen.ArrOf(tMapN)
+		picked, spare, rows := a.fresh("p"), a.fresh("sp"), a.fresh("rw")
+		a.declare(rows, tArrAN, arrLit(tArrAN, arrLit(tArrN, nl(1), nl(2)), arrLit(tArrN, nl(3), nl(4)), arrLit(tArrN, nl(5))))
+		a.typed(picked, tArrAN)
+		a.declare(spare, tArrN, arrLit(tArrN, nl(9), nl(9)))
+		a.stmts = append(a.stmts, gen.For{Var: "row", VarT: tArrN, Over: vr(rows, tArrAN), Body: []gen.Stmt{
+			gen.Assign{Target: vr(picked, tArrAN), Val: gen.Binary{Op: "+", L: vr(picked, tArrAN), R: arrLit(tArrAN, vr("row", tArrN)), T: tArrAN}},
+			gen.If{Conds: []gen.Expr{gen.Binary{Op: "==", L: gen.Index{X: vr("row", tArrN), I: nl(0), T: tNum}, R: nl(3), T: tBool}}, Blocks: [][]gen.Stmt{{gen.Assign{Target: vr("row", tArrN), Val: vr(spare, tArrN)}}}},
+			gen.Assign{Target: gen.Index{X: vr("row", tArrN), I: nl(0), T: tNum}, Val: gen.Binary{Op: "+", L: gen.Index{X: vr("row", tArrN), I: nl(0), T: tNum}, R: nl(100), T: tNum}},
+		}})
+		pm, ms := a.fresh("pm"), a.fresh("ms")
+		a.declare(ms, tArrM, arrLit(tArrM, gen.MapLit{T: tMapN, Keys: []string{"a"}, Vals: []gen.Expr{nl(1)}}, gen.MapLit{T: tMapN, Keys: []string{"b"}, Vals: []gen.Expr{nl(2)}}))
+		a.typed(pm, tArrM)
+		a.stmts = append(a.stmts, gen.For{Var: "mp", VarT: tMapN, Over: vr(ms, tArrM), Body: []gen.Stmt{
+			gen.Assign{Target: vr(pm, tArrM), Val: gen.Binary{Op: "+", L: arrLit(tArrM, vr("mp", tMapN)), R: vr(pm, tArrM), T: tArrM}},
+			gen.Assign{Target: gen.Dot{X: vr("mp", tMapN), Key: "seen", T: tNum}, Val: nl(1)},
+		}})
+	case 32: // two splits of the same (long) string are two arrays
+		tx, f1, f2 := a.fresh("tx"), a.fresh("f"), a.fresh("f")
+		a.declare(tx, tStr, sl([]string{"alpha,beta,gamma,delta,epsilon,zeta,eta", "a b", "one two three four five six seven eight nine ten"}[r.Intn(3)]))
+		sep := []string{",", " "}[r.Intn(2)]
+		a.declare(f1, tArrS, call("split", tArrS, vr(tx, tStr), sl(sep)))
+		a.stmts = append(a.stmts, gen.Assign{Target: gen.Index{X: vr(f1, tArrS), I: nl(0), T: tStr}, Val: call("upper", tStr, gen.Index{X: vr(f1, tArrS), I: nl(0), T: tStr})})
+		a.declare(f2, tArrS, call("split", tArrS, vr(tx, tStr), sl(sep)))
+		a.stmts = append(a.stmts, gen.Assign{Target: gen.Index{X: vr(f2, tArrS), I: nl(-1), T: tStr}, Val: sl("changed")})
+		a.declare(a.fresh("f"), tArrS, call("split", tArrS, vr(tx, tStr), sl(sep)))
+	case 33: // map values overwritten with equal but distinct composites, then the old and the new one changed
+		inner1, inner2, holder := a.fresh("in"), a.fresh("in"), a.fresh("ho")
+		a.declare(inner1, tArrN, arrLit(tArrN, nl(1), nl(2)))
+		a.declare(inner2, tArrN, arrLit(tArrN, nl(1), nl(2)))
+		a.declare(holder, tMapAN, gen.MapLit{T: tMapAN, Keys: []string{"k"}, Vals: []gen.Expr{vr(inner1, tArrN)}})
+		a.stmts = append(a.stmts, gen.Assign{Target: gen.Dot{X: vr(holder, tMapAN), Key: "k", T: tArrN}, Val: vr(inner2, tArrN)},
+			gen.Assign{Target: gen.Index{X: vr(inner1, tArrN), I: nl(0), T: tNum}, Val: nl(71)},
+			gen.Assign{Target: gen.Index{X: vr(inner2, tArrN), I: nl(1), T: tNum}, Val: nl(72)})
 	case 30: // an array grown by concatenation, then concatenated twice: three independent arrays
 		arr, _ := a.pick(tArrN)
 		g := a.fresh("g")
